@@ -296,10 +296,25 @@ func (g *cg) arg(role string, d int) []Node {
 		if d > 0 && g.pick("nmcomp", 4) == 0 {
 			return one(g.produce("map", d-1))
 		}
+		if g.pick("nmvec", 4) == 0 {
+			// maps that hold vectors (of maps), or a vector at the root
+			inner := val.Vc(val.I(1), g.mapV(1), val.Vc(val.I(2), val.I(3)), val.N())
+			if g.pick("nmroot", 2) == 0 {
+				return one(lit(inner))
+			}
+			k1, _ := val.KeyOf(g.keyV())
+			m := g.mapV(1)
+			m.M[k1] = inner
+			return one(lit(m))
+		}
 		return one(lit(g.mapV(2)))
 	case "path":
 		xs := []val.V{}
 		for i, n := 0, g.pick("pn", 4); i < n; i++ {
+			if g.pick("pint", 4) == 0 {
+				xs = append(xs, val.I(g.pick("pidx", 5)-1))
+				continue
+			}
 			xs = append(xs, g.keyV())
 		}
 		return one(lit(val.V{K: val.Vec, L: xs}))
